@@ -176,6 +176,18 @@ Theorem C09_check_trace_sound :
 Proof. exact check_trace_top_sound. Qed.
 Print Assumptions C09_check_trace_sound.
 
+(* (12) Tensors that the constructors of AntiSymmetricTensor / Amplitude return
+   as 0 - a repeated index in the upper or lower group, or bra-ket
+   antisymmetry with coinciding sorted upper and lower tuples - have value 0
+   in every model respecting the declared symmetries (2 is invertible through
+   the embedding of Q); [check_trace_top] accepts an observed 0 on this
+   ground. *)
+Theorem C09_zero_tensor_value :
+  forall (S : Scalar) (T : tmodel S), Core.Canon.respects S T ->
+  forall (r : env) (t : tens), tens_zero t = true -> tens_val S T r t = k0 S.
+Proof. exact tens_zero_val. Qed.
+Print Assumptions C09_zero_tensor_value.
+
 (* The hypotheses are satisfiable: a model with four spin orbitals, the
    product 1/2 delta_ij delta_pj f_pa g_j with targets i, a. *)
 Example C09_hypotheses_satisfiable :
